@@ -172,7 +172,7 @@ def run_shard(shard):
     FNS = {"plus1": (lambda x: x + 1.0, lambda x: x + 1.0), "tril": (lambda x: jnp.tril(x), lambda x: np.tril(x)),
            "double": (lambda x: 2.0 * x, lambda x: 2.0 * x), "add": (lambda x, y: x + y, lambda x, y: x + y)}
 
-    def gen(shape, depth, r):
+    def gen(shape, depth, r, top=False):
         """-> (wrapped node, reference-evaluator closure () -> np value, wrapper count)"""
         if depth == 0 or r.random() < 0.25:
             a = r.normal(size=shape)
@@ -188,8 +188,12 @@ def run_shard(shard):
             return W.BijectionReparam(inner, B.Affine(0.5, 2.0), invert_on_init=False), (lambda: 2.0 * ref() + 0.5), n + 1
         if k == "where":
             a, ra, na = gen(shape, depth - 1, r)
-            b, rb, nb = gen(shape, depth - 1, r)
             m = r.random(shape) < 0.5
+            if top and r.random() < 0.5:
+                # masking idiom with a non-finite fill value (e.g. Where(active, logits, -inf)): selected entries stay finite
+                fill = float(r.choice([-np.inf, np.inf, np.nan]))
+                return W.Where(jnp.asarray(m), a, jnp.full(shape, fill)), (lambda: np.where(m, ra(), fill)), na + 1
+            b, rb, nb = gen(shape, depth - 1, r)
             return W.Where(jnp.asarray(m), a, b), (lambda: np.where(m, ra(), rb())), na + nb + 1
         if k == "wn" and len(shape) == 2:
             inner, ref, n = gen(shape, depth - 1, r)
@@ -221,7 +225,7 @@ def run_shard(shard):
     def check_nesting(idx):
         r = np.random.default_rng([shard["seed"], 12, shard["shard"], idx])
         shape = tuple(int(s) for s in r.permutation([2, 3, 4])[: int(r.integers(1, 3))])
-        node, ref, nw = gen(shape, int(r.integers(1, 4)), r)
+        node, ref, nw = gen(shape, int(r.integers(1, 4)), r, top=True)
         it = {"nesting": idx, "origin": "nesting"}
         rec.evals += 1
         container = r.choice(["bare", "tuple", "dict", "module", "list"])
@@ -457,6 +461,39 @@ def run_shard(shard):
             rec.samples.append(jsonable({"model": name, "freeze_mode": str(fmode), "optimizer": oname, "loop": loop, "frozen_float_leaves": n_frozen,
                                          "trainable_float_leaves": n_free, "trainable_leaves_that_moved": moved_free}))
 
+    def check_merge_keeps_frozen(idx):
+        """History: construct with a frozen sub-chain -> merge_chains -> the leaves that were frozen must still be frozen (and the
+        function unchanged)."""
+        r = np.random.default_rng([shard["seed"], 12, shard["shard"], 7000 + idx])
+        key = jr.PRNGKey(int(r.integers(0, 2**31 - 1)))
+        ks = jr.split(key, 6)
+        d_ = 3
+        aff = lambda k_: B.Affine(jr.normal(k_, (d_,)), jnp.exp(0.3 * jr.normal(jr.fold_in(k_, 1), (d_,))))
+        frozen_sub = W.NonTrainable(B.Chain([aff(ks[0]), B.Permute(jnp.array([2, 0, 1]))])) if r.random() < 0.5 else W.non_trainable(B.Chain([aff(ks[0]), B.Permute(jnp.array([2, 0, 1]))]))
+        chain = B.Chain([aff(ks[1]), frozen_sub, B.Chain([B.Loc(jr.normal(ks[2], (d_,))), W.non_trainable(B.Scale(jnp.exp(jr.normal(ks[3], (d_,)))))]), aff(ks[4])])
+        it = {"origin": "merge", "index": idx}
+        rec.evals += 1
+        rec.count("merge_keeps_frozen_checks")
+        rec.nontrivial.add(chash("merge", shard["shard"], idx))
+        before = leaves_with_flags(chain)
+        frozen_bytes = {a.tobytes() for _, a, fz, fl in before if fz and fl}
+        try:
+            merged = chain.merge_chains()
+        except Exception as e:  # noqa: BLE001
+            v(f"exception.{type(e).__name__}", f"merge_chains on a chain with a frozen sub-chain raised {type(e).__name__}: {str(e)[:200]}", it)
+            return
+        after = leaves_with_flags(merged)
+        thawed = [p_ for p_, a, fz, fl in after if fl and not fz and a.tobytes() in frozen_bytes]
+        if thawed:
+            v("frozen.thawed_by_merge", f"merge_chains made frozen leaves trainable: {thawed[:3]}", it)
+        x = jr.normal(ks[5], (d_,))
+        g = eqx.filter_grad(lambda m_: m_.transform(x).sum())(merged)
+        for path, arr, fz, fl in leaves_with_flags(g):
+            pass
+        y0, y1 = np.asarray(chain.transform(x)), np.asarray(merged.transform(x))
+        if not np.allclose(y0, y1, rtol=1e-12, atol=1e-12):
+            v("merge.value", "merge_chains changed the function of a chain with a frozen sub-chain", it)
+
     def check_conditioner_exclusion():
         """(f) frozen leaves are not parameterised by coupling / autoregressive conditioners."""
         for tr_name, tr in {"Affine(loc frozen)": eqx.tree_at(lambda a: a.loc, B.Affine(0.7, 1.3), replace_fn=W.NonTrainable),
@@ -507,6 +544,8 @@ def run_shard(shard):
             check_dist_methods()
         if shard["shard"] % 4 == 1:
             check_conditioner_exclusion()
+        for i in range(3):
+            check_merge_keeps_frozen(i)
         for i in range(shard["train"]):
             try:
                 check_training(i)
